@@ -85,12 +85,19 @@ def tree_case(rng: random.Random, n: int, shape: str, numbering: str = "sorted",
         g = lambda: rng.randint(-10_000_000, 10_000_000) / 10000.0
         rr = lambda: rng.randint(1, 100000) / 10000.0
     elif coords == "lattice":
-        g = lambda: float(rng.randint(-20, 20))
+        g = lambda: float(rng.randint(-20 - n // 8, 20 + n // 8))
         rr = lambda: float(rng.randint(1, 4))
     else:
         g = lambda: rng.uniform(-100, 100)
         rr = lambda: rng.uniform(0.1, 5)
-    xyz = [[g(), g(), g()] for _ in range(n)]
+    # pairwise distinct positions (oracles identify nodes by position; coincident nodes are a degenerate input of their own)
+    seen, xyz = set(), []
+    for _ in range(n):
+        for _try in range(200):
+            p = (g(), g(), g())
+            if p not in seen:
+                break
+        seen.add(p); xyz.append(list(p))
     r = [rr() for _ in range(n)]
     if types == "mixed":
         ty = [1] + [rng.choice([2, 3, 4, 0, 5, 7]) for _ in range(n - 1)]
